@@ -31,18 +31,20 @@ def params():
 
 def parse_seg(seg):
     """'now flags tmo trackers Rreqs' -> dict"""
-    now, fl, tmo, trs, reqs = seg.split(" ")
+    now, fl, tmo, tsc, pend, trs, reqs, scr = seg.split(" ")
     tl = []
     for t in trs.split(";") if trs else []:
         f = t.split(".")
         tl.append(dict(id=int(f[0]), en=f[1] == "1", busy=f[2] == "1", ev=int(f[3]), sc=int(f[4]), fc=int(f[5]),
-                       stl=int(f[6]), ftl=int(f[7]), ni=int(f[8]), mi=int(f[9])))
+                       stl=int(f[6]), ftl=int(f[7]), ni=int(f[8]), mi=int(f[9]), sct=int(f[10])))
     rl = []
     body = reqs[1:]
     for q in body.split(",") if body else []:
         f = q.split(":")
         rl.append(dict(id=int(f[0]), ev=int(f[1]), up=int(f[2]), comp=int(f[3]), left=int(f[4]), repl=f[5] == "1"))
-    return dict(now=int(now), fl=int(fl, 16), tmo=None if tmo == "-" else int(tmo), trs=tl, reqs=rl)
+    sl = [int(x) for x in scr[1:].split(",")] if len(scr) > 1 else []
+    return dict(now=int(now), fl=int(fl, 16), tmo=None if tmo == "-" else int(tmo), tsc=None if tsc == "-" else int(tsc),
+                pend=None if pend == "P-" else int(pend[1:]), trs=tl, reqs=rl, scrapes=sl)
 
 
 def backoff(P, fc):
@@ -107,22 +109,105 @@ def oracle_udp(case, line):
     return bad[:2]
 
 
+def oracle_download(case, line):
+    """D cases: the figures handed to the tracker through the real Download API match the transfer state:
+    uploaded / downloaded count from the baseline taken at the last start (unless start_keep_baseline)."""
+    head, _, opstr = case.partition(" ; ")
+    comp, left = int(head.split()[1]), int(head.split()[2])
+    ops = opstr.split()
+    segs = line.split(" | ")
+    if len(segs) != len(ops):
+        return [(None, "D case: %d segments for %d ops: %s" % (len(segs), len(ops), line[:200]))]
+    up = upb = compb = 0
+    active = False
+    bad = []
+    for i, (op, seg) in enumerate(zip(ops, segs)):
+        want_ev = None
+        if op in ("start", "starts", "startk") and not active:
+            active = True
+            if op != "startk":
+                upb, compb = up, comp
+            if op != "starts":
+                want_ev = 2
+        elif op in ("stop", "stops") and active:
+            active = False
+        elif op.startswith("up:"):
+            up += int(op[3:])
+        for q in (seg[1:].split(",") if len(seg) > 1 else []):
+            f = [int(x) for x in q.split(":")]
+            if (f[1], f[2], f[3]) != (max(up - upb, 0), max(comp - compb, 0), left):
+                bad.append(("figures-not-transfer-state", "announce (event %d) reports uploaded/downloaded/left %d/%d/%d but the transfer state of this session is %d/%d/%d at op %d (%s)" % (
+                    f[0], f[1], f[2], f[3], max(up - upb, 0), max(comp - compb, 0), left, i, op)))
+            if want_ev is not None and f[0] != want_ev:
+                bad.append((None, "Download::start sent event %d instead of 'started' at op %d" % (f[0], i)))
+    return [(None, t) for _, t in bad[:1]] if bad else []
+
+
+def oracle_http(case, line):
+    """H cases (real TrackerHttp, hand-drained main thread): every announce between a start / completed and the reply
+    that accepts an announce CARRYING that event carries it; figures equal the case's."""
+    head, _, opstr = case.partition(" ; ")
+    up, comp, left = head.split()[1:4]
+    ops = opstr.split()
+    segs = line.split(" | ")
+    if len(segs) != len(ops):
+        return [(None, "H case: %d segments for %d ops: %s" % (len(segs), len(ops), line[:200]))]
+    pending = None          # event code the client is waiting to get accepted
+    inflight = None         # event of the request the tracker has not answered yet
+    queued = None           # (event, ok) of an answered request whose result the main thread has not run yet
+    bad = []
+    for i, (op, seg) in enumerate(zip(ops, segs)):
+        f = seg.split(" ")
+        reqs = f[2][1:].split(",") if len(f) == 3 and len(f[2]) > 1 else []
+        if op == "ss":
+            pending = 2
+        elif op == "sc":
+            pending = 1
+        elif op == "sp":
+            pending = None
+        elif op in ("ok", "fl") and inflight is not None and queued is None:
+            queued, inflight = (inflight, op == "ok"), None
+        elif op == "dr" and queued is not None:
+            if queued[1] and queued[0] == pending:
+                pending = None
+            queued = None
+        for q in reqs:
+            g = q.split(":")
+            ev = int(g[0])
+            if (g[1], g[2], g[3]) != (up, comp, left):
+                bad.append((None, "HTTP announce reports %s/%s/%s, the download info says %s/%s/%s at op %d (%s)" % (g[1], g[2], g[3], up, comp, left, i, op)))
+            if pending in (1, 2) and ev != pending:
+                bad.append(("stale-reply-accepts-pending-event", "HTTP announce carries event %d while '%s' is still pending (no tracker accepted an announce that carried it) at op %d (%s)" % (
+                    ev, BEP15_NAME[pending], i, op)))
+            inflight = ev
+            queued = None           # a new request supersedes a result still waiting for the main thread
+    return [(None, t) for _, t in bad[:1]]
+
+
 def oracle(case, line, P):
     """Returns list of (klass or None, text). klass None = unclassified violation."""
+    if line.startswith("CRASH") and ("rc=-14" in line or "signal=14" in line or "TIMEOUT" in line):
+        return [(None, "hang: the implementation did not finish this case within the per-case watchdog (30 s)")]
     if line.startswith("CRASH") or "ERR:" in line or "BAD" in line or line == "MISSING" or "SETUP-FAIL" in line or "unexpected-packet" in line or "no-announce" in line:
         return [(None, "implementation crashed or raised: " + line[-200:])]
     if case.startswith("U "):
         return oracle_udp(case, line)
+    if case.startswith("D "):
+        return oracle_download(case, line)
+    if case.startswith("H "):
+        return oracle_http(case, line)
     head, _, opstr = case.partition(" ; ")
     ht = head.split()
-    groups = [int(x) for x in ht[4:4 + int(ht[3])]]
-    ops = opstr.split()
+    groups = [int(x.rstrip("s")) for x in ht[4:4 + int(ht[3])]]
+    ops = [x for x in opstr.split() if not x.startswith("h:")]
     segs = line.split(" | ") if line != "-" else []
     if len(segs) != len(ops):
         return [(None, "implementation printed %d segments for %d ops" % (len(segs), len(ops)))]
     bad = []
     group_of = dict(enumerate(groups))
-    inflight = {}            # tracker id -> event in flight
+    inflight = {}            # tracker id -> event of the announce in flight
+    scraping = set()         # trackers with a scrape in flight
+    done_ev = {}             # tracker id -> event of the announce whose reply the worker has produced but main has not counted yet
     pend_start = pend_comp = ever_start = ever_comp = False
     stats = (0, 0, 0)
     raw = (0, 0, 0)
@@ -138,20 +223,30 @@ def oracle(case, line, P):
         pre_trs = {t["id"]: t for t in (prev["trs"] if prev else st["trs"])}
         post = {t["id"]: t for t in st["trs"]}
         nows = st["now"] // USEC
-        timer_driven = o in ("ad", "nx", "fl", "fi", "ok", "te", "td", "cy")
-        # a reply that hit an in-flight request
-        if o in ("ok", "fl", "fi"):
-            for tid, t in post.items():
-                p = pre_trs.get(tid)
-                if p and p["busy"] and ((o == "ok" and t["sc"] == p["sc"] + 1 and not (t["fc"] > p["fc"])) or
-                                        (o != "ok" and t["fc"] == p["fc"] + 1)):
-                    if o == "ok":
-                        if inflight.get(tid) == EV_STARTED:
-                            pend_start = False
-                        if inflight.get(tid) == EV_COMPLETED:
-                            pend_comp = False
-                    inflight.pop(tid, None)
-        if o in ("ss", "ST"):
+        timer_driven = o in ("ad", "nx", "nxs", "fl", "fi", "ok", "te", "td", "cy", "dr", "dok", "dfl", "dfi", "sr")
+        # a worker finished its request (busy -> idle without a new request): the reply exists from now on
+        for tid, t in post.items():
+            p = pre_trs.get(tid)
+            if p and p["busy"] and not t["busy"] and not any(q["id"] == tid for q in st["reqs"]):
+                if tid in scraping:
+                    scraping.discard(tid)
+                elif tid in inflight:
+                    done_ev[tid] = inflight.pop(tid)
+        # the main thread counted a reply: an accepted announce delivers the event it carried
+        for tid, t in post.items():
+            p = pre_trs.get(tid)
+            if p and t["sc"] == p["sc"] + 1:
+                ev_done = done_ev.pop(tid, None)
+                if ev_done == EV_STARTED:
+                    pend_start = False
+                if ev_done == EV_COMPLETED:
+                    pend_comp = False
+            elif p and t["fc"] == p["fc"] + 1:
+                done_ev.pop(tid, None)
+        if o in ("ST", "STK"):
+            base = (raw[0], raw[1])
+            stats = (0, 0, raw[2])
+        if o in ("ss", "ST", "STB"):
             ever_start = True
             pend_start, pend_comp = True, False
         elif o == "sc":
@@ -164,7 +259,7 @@ def oracle(case, line, P):
             raw = (int(f[1]), int(f[2]), int(f[3]))
             stats = (max(raw[0] - base[0], 0), max(raw[1] - base[1], 0), raw[2])
         elif o == "in":
-            group_of[len(group_of)] = int(op.split(":")[1])
+            group_of[len(group_of)] = int(op.split(":")[1].rstrip("s"))
         elif o == "bl":
             f = op.split(":")
             base = (int(f[1]), int(f[2]))
@@ -173,13 +268,20 @@ def oracle(case, line, P):
             if not (P["trk_min_normal_interval"] <= t["ni"] <= P["trk_max_normal_interval"] and
                     P["trk_min_min_interval"] <= t["mi"] <= P["trk_max_min_interval"]):
                 bad.append((None, "interval outside the clamps at op %d (%s): tracker %d ni=%d mi=%d" % (i, op, t["id"], t["ni"], t["mi"])))
+        pre_inflight = set(inflight) | set(scraping)
         for q in st["reqs"]:
             tid, ev = q["id"], q["ev"]
             t = post[tid]
+            # a request that is no longer in flight at the end of the op was answered within the op (a queued or
+            # explicit reply processed after it): the timing clauses are then judged on the state before the op
+            if not t["busy"] and tid in pre_trs:
+                t = pre_trs[tid]
             where = "op %d (%s) tracker %d event %d" % (i, op, tid, ev)
             # one in flight; newer event replaces, never duplicates
-            if q["repl"] != (tid in inflight):
+            if q["repl"] != (tid in inflight or tid in scraping) and tid not in st["scrapes"]:
                 bad.append((None, "worker in-flight state disagrees with the request history at " + where))
+            scraping.discard(tid)       # an announce replaces a scrape in flight
+            done_ev.pop(tid, None)      # and supersedes a reply of this tracker still waiting for the main thread
             if tid in inflight and (ev == inflight[tid] or ev == EV_NONE):
                 bad.append((None, "a pending announce was replaced by a duplicate / plain update at " + where))
             if not pre_trs[tid]["en"] and not t["en"]:
@@ -231,13 +333,31 @@ def oracle(case, line, P):
                             bad.append((kl, "tier %d contacted while tier %d has a usable tracker without failure (tracker %d) at %s" % (g, group_of[u["id"]], u["id"], where)))
                             break
             inflight[tid] = ev
+            if not post[tid]["busy"]:
+                # answered within this op
+                ev_done = inflight.pop(tid)
+                p = pre_trs.get(tid)
+                if p and post[tid]["sc"] == p["sc"] + 1:
+                    if ev_done == EV_STARTED:
+                        pend_start = False
+                    if ev_done == EV_COMPLETED:
+                        pend_comp = False
+        for tid in st["scrapes"]:
+            if tid in pre_inflight and not any(q["id"] == tid for q in st["reqs"]):
+                bad.append((None, "scrape sent to tracker %d while it has a request in flight at op %d (%s)" % (tid, i, op)))
+            if not post[tid]["en"] and not pre_trs.get(tid, post[tid])["en"]:
+                bad.append((None, "scrape sent to disabled tracker %d at op %d (%s)" % (tid, i, op)))
+            if post[tid]["busy"] and post[tid]["ev"] == 4:
+                inflight.pop(tid, None)
+                scraping.add(tid)
         # the per-tracker busy flag agrees with the request history
         for tid, t in post.items():
-            if t["busy"] != (tid in inflight):
+            if t["busy"] != (tid in inflight or tid in scraping):
                 bad.append((None, "tracker %d busy flag %s but request history says %s after op %d (%s)" % (tid, t["busy"], tid in inflight, i, op)))
                 inflight = {k: v for k, v in inflight.items() if post[k]["busy"]}
+                scraping = {k for k in scraping if post[k]["busy"]}
                 for k, v in post.items():
-                    if v["busy"]:
+                    if v["busy"] and k not in scraping:
                         inflight.setdefault(k, v["ev"])
                 break
         prev = st
@@ -248,6 +368,25 @@ def oracle(case, line, P):
             seen.add(kl)
             out.append((kl, text))
     return out
+
+
+def with_hints(case, impl_line):
+    if not case.startswith("T "):
+        return case
+    head, _, opstr = case.partition(" ; ")
+    ops = opstr.split()
+    segs = impl_line.split(" | ")
+    if len(segs) != len(ops):
+        return case
+    out = []
+    for op, seg in zip(ops, segs):
+        m = re.search(r" R(\d[^ ]*)", seg)
+        if m:
+            ids = [q.split(":")[0] for q in m.group(1).split(",")]      # in the order they were contacted
+            if len(ids) >= 1:
+                out.append("h:" + ",".join(ids))
+        out.append(op)
+    return head + " ; " + " ".join(out)
 
 
 def first_diff(m, o):
@@ -277,8 +416,21 @@ def run(rep, tier, seed, replay):
         stats = {"replay": 1}
     else:
         cases, stats = G.gen(seed, tier)
-    mo = ltv.run_sharded(model, cases)
-    io = ltv.run_sharded(impl, cases, timeout=900)
+    # D cases go to the session-based driver (real torrent::Download), everything else to harness/c13.cc
+    didx = [i for i, c in enumerate(cases) if c.startswith("D ")]
+    oidx = [i for i, c in enumerate(cases) if not c.startswith("D ")]
+    io = [None] * len(cases)
+    for i, r in zip(oidx, ltv.run_sharded(impl, [cases[i] for i in oidx], timeout=900)):
+        io[i] = r
+    if didx:
+        impl_d = ltv.build_harness("c13d", ["c13d.cc", "common/session.cc"], libs=["-lcrypto"])
+        for i, r in zip(didx, ltv.run_sharded(impl_d, [cases[i] for i in didx], timeout=900)):
+            io[i] = r
+    io = [r if r is not None else "MISSING" for r in io]
+    # Second pass: the model. Which READY tracker of a tier is contacted in promiscuous/requesting mode is left open
+    # by the property; the model is told which trackers the implementation contacted in each op ("h:" tokens) and
+    # follows that choice only among the trackers it considers ready in that tier (Model.pick_hinted).
+    mo = ltv.run_sharded(model, [with_hints(c, o) for c, o in zip(cases, io)])
     nontrivial = set()
     pending = []
     mism = 0
@@ -295,7 +447,8 @@ def run(rep, tier, seed, replay):
         nreq += n
         for x in reqs:
             for q in x.split(","):
-                evkinds[int(q.split(":")[1])] += 1
+                k = int(q.split(":")[0 if case[:2] in ("D ", "H ") else 1])
+                evkinds[k] = evkinds.get(k, 0) + 1
         for f in re.findall(r"\d+\.[01]\.[01]\.\d\.\d+\.(\d+)\.", o):
             maxfail = max(maxfail, int(f))
         for op in case.partition(" ; ")[2].split():
